@@ -583,6 +583,13 @@ func (cw *c07World) exec(in c07Input, plan map[int]string, wantPrefix []string) 
 	if after.hseq < before.hseq || after.hseq > before.hseq+1 {
 		return obs, viol("failed-hook-leaves-no-effects", "%s: hook signer sequence %d -> %d", label, before.hseq, after.hseq)
 	}
+	// a correctly signed hook that got as far as its messages consumes the signer's sequence whether the
+	// messages succeed or not: the payload is public on L1 and must not be replayable
+	reason, _ := world.Attr(fevs[0], "reason")
+	ran := obs.hookOK || strings.HasPrefix(reason, "hook failed; Failed to execute Msg") || strings.HasPrefix(reason, "hook failed; panic")
+	if strings.HasPrefix(in.Payload, "signed[") && in.HookGas == "default" && len(obs.hit) == 0 && ran && after.hseq != before.hseq+1 {
+		return obs, tagged(viol("hook-signer-sequence-is-consumed", "%s: the hook passed signature verification but its signer's sequence stayed at %d", label, after.hseq), "payload", in.Payload)
+	}
 	if hookCharged > p.HookMaxGas {
 		return obs, tagged(viol("hook-spends-at-most-hook-gas", "%s: %d gas charged for the hook, HookMaxGas=%d", label, hookCharged, p.HookMaxGas), "where", "outer")
 	}
